@@ -53,6 +53,24 @@ def maporder_across_processes(c):
 
 
 CONFIG = {
+    "C09": {
+        "profiles": BOTH,
+        "rule": "one evaluation = one execution of an expression in one variable/literal form; distinct non-trivial = distinct (expression, binding) pairs with a non-empty "
+                "substitution set and at least one operator or call",
+        "floors": {"quick": {"_evaluations": 300000, "relation/var-to-literal": 50000, "relation/literal-to-var": 10000, "relation/template": 10000,
+                             "compile_time_calls_folded": 5000, "clock_executions": 40},
+                   "thorough": {"_evaluations": 1500000}},
+        "assumptions": ASSUME_COMMON + [
+            "error variants are not compared across the two forms (both must fail)",
+            "built-in functions are not rebound by the caller",
+            "clock: a reading must lie inside the wall-clock bracket of its own execution (logical containment, no latency bound)"],
+        "technique": "runtime monitoring with a metamorphic oracle: the same expression with any subset of its variables replaced by literals of their bound values (and literals "
+                     "abstracted into variables) must give the same outcome; ConstFold hook events confirm that the compile-time path ran; clock-bracket monitor for now()/timestamp()",
+        "level_text": "Generated full-grammar expressions with 1..5 variables of every spellable type x all subsets of the variables (<= 31) turned into literals, plus the reverse "
+                      "direction, plus 44 hand-written hazard templates (macros over partly constant lists, duplicate keys, ?: conditions, unbound variables, has/coalesce) over value "
+                      "combinations; 21 clock-dependent programs must report an instant inside the bracket of each execution, twice and after a serde round trip. Exploration only.",
+        "level_note": "trusts the literal speller (validated independently by C13) and the renderer",
+    },
     "C07": {
         "profiles": BOTH,
         "post": [maporder_across_processes],
